@@ -7,6 +7,13 @@ package c11
 // through the real handlers and the real gRPC server that the production
 // startServers wires from compiled DSL text (app.VerifBoot), against the
 // reference allowlist rule in ref_test.go. No sampling, no solver.
+//
+// Two history dimensions multiply the table (the rule itself has no memory):
+//   - how the configuration came into force: fresh boot, or boot of ANOTHER configuration followed by the production
+//     reload (applied: the new table; rejected because a restart is required: the old table) — reload_test.go;
+//   - what the authorizer saw just before: nothing, or an authorised request to the same endpoint — primer_test.go;
+//     rows whose failure needs the rows before them are reported with that trail — trail_test.go.
+// Overlapping requests on one authorizer are the free-running -race pass in race_test.go.
 
 import (
 	"encoding/base64"
@@ -16,7 +23,6 @@ import (
 	"os"
 	"path/filepath"
 	"runtime"
-	"runtime/pprof" // TEMP-PROF
 	"sort"
 	"strings"
 	"sync"
@@ -274,6 +280,9 @@ type caseSpec struct {
 	// endpoint (PrimeTarget for the Pull HTTP surface) without touching the state.
 	After       string `json:"after_valid_token,omitempty"`
 	PrimeTarget string `json:"primer_target,omitempty"`
+	// Trail (trail_test.go): rows that were sent before this one on the same boot; only recorded when the failure
+	// does not reproduce without them.
+	Trail []caseSpec `json:"preceding_rows_on_the_same_boot,omitempty"`
 }
 
 type refInfo struct {
@@ -541,6 +550,14 @@ func execute(w *world, cs caseSpec) (outcome, refInfo, error) {
 	if err := w.fresh(); err != nil {
 		return outcome{}, refInfo{}, err
 	}
+	if err := w.replayTrail(cs); err != nil {
+		return outcome{}, refInfo{}, err
+	}
+	return send(w, cs)
+}
+
+// send: primer (if any) and the request of one row on the world as it is.
+func send(w *world, cs caseSpec) (outcome, refInfo, error) {
 	if cs.After != "" {
 		if err := w.prime(cs); err != nil {
 			return outcome{}, refInfo{}, err
@@ -644,6 +661,7 @@ func (k *checker) judgeCase(w *world, cs caseSpec) (refInfo, bool) {
 		k.r.Infra("%v", err)
 		return ri, false
 	}
+	prior := w.recordRow(cs) // the rows sent before this one since the last boot
 	r := k.r
 	r.Add("evaluations", 1)
 	r.Add("evaluations_"+cs.Surface, 1)
@@ -730,22 +748,37 @@ func (k *checker) judgeCase(w *world, cs caseSpec) (refInfo, bool) {
 		r.Add("violating_rows_beyond_first_per_key", 1)
 		return ri, true
 	}
+	// a failure that needs the rows sent earlier on the same boot is reported WITH them (trail_test.go)
+	if len(cs.Trail) == 0 && len(prior) > 0 && !k.reproduces(cs, kind) {
+		if tr := k.shortestTrail(cs, prior, kind); tr != nil {
+			cs.Trail = tr
+			key += ":history-dependent"
+			msg += fmt.Sprintf(" — only after the %d preceding rows on the same boot that the replay file lists (the last one: %s, authorization %q%s)", len(tr), requestLine(tr[len(tr)-1]), tr[len(tr)-1].Creds,
+				map[bool]string{true: ", itself sent right after a request with the valid token " + tr[len(tr)-1].After}[tr[len(tr)-1].After != ""])
+			if !k.firstOf("violation " + key) {
+				return ri, true
+			}
+		}
+	}
 	full := fmt.Sprintf("%s\n  config: %s\n  history: %s\n  request: %s [%s]\n  authorization (%s): %q\n  effective allowlist: %q (reference verdict %s)\n  observed: code=%d state_changed=%v data_returned=%v",
 		msg, cs.Cfg.label(), historyText(cs), requestLine(cs), cs.Surface, cs.Class, cs.Creds, ri.Allow, vname, o.Code, o.Changed, o.Leak)
-	k.r.Violation(key, full, cs, func() bool {
-		k.recheck.Lock()
-		defer k.recheck.Unlock()
-		rw := newWorld(cs.Cfg, 900, filepath.Join(runner.Scratch(), "recheck"))
-		rw.decided = true
-		defer rw.shutdown()
-		o2, ri2, err := execute(rw, cs)
-		if err != nil {
-			return false
-		}
-		k2, _ := failure(cs, ri2, o2)
-		return k2 == kind
-	})
+	k.r.Violation(key, full, cs, func() bool { return k.reproduces(cs, kind) })
 	return ri, true
+}
+
+// reproduces: the case, executed on a world of its own, fails the oracle in the same way.
+func (k *checker) reproduces(cs caseSpec, kind string) bool {
+	k.recheck.Lock()
+	defer k.recheck.Unlock()
+	rw := newWorld(cs.Cfg, 900, filepath.Join(runner.Scratch(), "recheck"))
+	rw.decided = true
+	defer rw.shutdown()
+	o2, ri2, err := execute(rw, cs)
+	if err != nil {
+		return false
+	}
+	k2, _ := failure(cs, ri2, o2)
+	return k2 == kind
 }
 
 func historyText(cs caseSpec) string {
@@ -969,11 +1002,6 @@ func (k *checker) compileTable(specs []cfgSpec) {
 
 func TestCheck(t *testing.T) {
 	r := runner.Start("C11", "exploration")
-	if pf := os.Getenv("C11_PROF"); pf != "" { // TEMP-PROF
-		f, _ := os.Create(pf)        // TEMP-PROF
-		pprof.StartCPUProfile(f)     // TEMP-PROF
-		defer pprof.StopCPUProfile() // TEMP-PROF
-	} // TEMP-PROF
 	k := &checker{r: r, stats: map[string]int64{}, once: map[string]bool{}, deadline: r.Deadline(60*time.Second, 10*time.Minute)}
 
 	if p := runner.ReplayPath(); p != "" {
@@ -1081,14 +1109,16 @@ func TestCheck(t *testing.T) {
 	r.Set("lenient_case_status_codes", lenient)
 	r.Set("admin_without_tokens", adminOpen)
 	r.Set("configs_behavioural", len(bootable))
-	r.Set("rule", "nested loops, nothing sampled: token configuration (global × route A × route B × admin lists [× alphabet × deployment × token source in thorough], each compiled from DSL text and booted through the production startServers) × surface (Pull HTTP handler, Worker gRPC server over the in-memory listener, Admin HTTP handler) × endpoint spelling × operation/method × credential column (derived from every member of the effective allowlist plus every other token of the alphabet). Each row runs on the seeded store (queued/leased/dead/canceled message per route, lease ids known) and is compared with the reference allowlist rule; the full state dump (all message fields, stats, config file, management labels) must be identical after an unauthorised row. distinct = (surface, operation/method, credential class, reference verdict, strict/lenient spelling); trivial rows (compile-only) are keyed separately.")
+	r.Set("reload_pairs_rule", "(A -> B): boot A through startServers, reload B through reloadConfig, run the complete table of the configuration in force. base = the 18 compiling configurations of global{-,g1,g1+g2} x routeA{-,a1} x routeB{-,b1} x admin{-,t1}. quick: all ordered pairs of base that differ in exactly one list (74); thorough: all 324 ordered pairs of base (identical reload included); both tiers: reload from the all-old-tokens configuration (every list replaced) to each of the 18. Restart-required direction: for every ordered pair of different deployments (split/prefix/shared) boot A (quick: 2, thorough: all 18 of base), reload inverse(A) (every list differs) in the other deployment: the tree must reject it and A's table must be fully in force, B's tokens worthless")
+	r.Set("rule", "nested loops, nothing sampled: token configuration (global × route A × route B × admin lists [× alphabet × deployment × token source in thorough], each compiled from DSL text and booted through the production startServers) × how it came into force (fresh boot | reload from another configuration applied | reload rejected, see reload_pairs_rule) × history on the authorizer (none | right after a harmless request with a valid token to the same endpoint; deny rows of fresh-boot and reload-from-old worlds; thorough: every member of the allowlist as the valid token) × surface (Pull HTTP handler, Worker gRPC server over the in-memory listener, Admin HTTP handler) × endpoint spelling × operation/method × credential column (derived from every member of the effective allowlist plus every other token of the alphabet). Each row runs on the seeded store (queued/leased/dead/canceled message per route, lease ids known) and is compared with the reference allowlist rule; the full state dump (all message fields, stats, config file, management labels) must be identical after an unauthorised row. distinct = (surface, operation/method, credential class, reference verdict, strict/lenient spelling); trivial rows (compile-only) are keyed separately.")
 	r.Assume("docs define the credential as 'Authorization: Bearer <token>' only; scheme spelled in another case, extra blanks around scheme/token and several Authorization values are undefined: either outcome is accepted when at least one value carries a member of the effective allowlist (observed: HTTP authorizers look at the first value and want the exact scheme, the gRPC authorizer accepts any value and any scheme case) — recorded in undefined_by_docs_outcomes; when no value carries a member the row is a plain deny row")
 	r.Assume("401/Unauthenticated is demanded for the canonical spelling of a configured endpoint+operation (Pull: POST {endpoint}/{dequeue,ack,nack,extend}; Admin: the path×method pairs of docs/admin-api.md). For endpoints no route declares, deviating path spellings, unknown operations and non-listed methods only 'no effect, no data, no success answer' is demanded (the tree answers 401, 404 or 405 there; see lenient_case_status_codes)")
 	r.Assume("when admin_api declares no tokens the property does not constrain the Admin API; those rows are executed and counted (admin_without_tokens) but not judged")
 	r.Assume("an authorised caller of endpoint A presenting a lease id that belongs to a message of route B is not part of this table (lease ids are capabilities; covered by the lease-fencing property C04)")
 	r.Assume("HTTP requests are parsed by net/http's http.ReadRequest, as the production http.Server would; the reference judges the Authorization values as delivered to the handler. TLS/mTLS listeners are not exercised (tokens are independent of the transport credentials)")
 	r.Assume("state = MemoryStore (fixed clock, no retention) + config file + management labels; runtime metrics counters are not queue state")
-	pprof.StopCPUProfile() // TEMP-PROF
+	r.Assume("which configuration is in force after a reload is taken from the return value of the production reload (the tree's own statement); the docs' rule (token edits apply live, listener/prefix/shared-listener changes are rejected and the previous configuration stays active) is used for the vacuity guards: a rejected token-only reload ends the run as non-exhaustive, never as a violation. Reload through SIGHUP/--watch/management mutation all end in the same reloadConfig/applyCompiled; the management-mutation path is exercised only as authorised PUT/DELETE rows, not as a history before the table")
+	r.Assume("overlapping requests: the sequential table cannot see state shared between in-flight requests of one authorizer; that is the free-running -race side pass (TestRace: valid and same-length/prefix/suffix/foreign invalid credentials presented concurrently to the same authorizer on the Pull HTTP, Worker gRPC and Admin surfaces, for authorizers built by start-up, by a reload and during a reload). It detects unsynchronised sharing (data race); a wrongly synchronised but still shared buffer would need the controlled scheduler and is not covered")
 	r.Finish()
 }
 
